@@ -87,7 +87,7 @@ func (c Config) next(i int) int {
 		_ = c[i+7]
 		return i + 8 + (int(c[i+3]) | int(c[i+2])<<8) + (int(c[i+5]) | int(c[i+4])<<8) + (int(c[i+7]) | int(c[i+6])<<8)
 	case valTLSxCA:
-		if i+4 >= len(c) {
+		if i+3 >= len(c) {
 			return -1
 		}
 		_ = c[i+3]
@@ -321,7 +321,7 @@ loop:
 			if p {
 				return -1, xerr.Wrap("tls-ca", ErrMultipleConnections)
 			}
-			if p = true; i+4 >= n {
+			if p = true; i+3 >= n {
 				return -1, xerr.Wrap("tls-ca", ErrInvalidSetting)
 			}
 			if a := (int(c[i+3]) | int(c[i+2])<<8) + i + 4; a > n || a < i {
@@ -610,7 +610,7 @@ loop:
 			if p.conn != nil {
 				return nil, -1, 0, xerr.Wrap("tls-ca", ErrMultipleConnections)
 			}
-			if i+4 >= n {
+			if i+3 >= n {
 				return nil, -1, 0, xerr.Wrap("tls-ca", ErrInvalidSetting)
 			}
 			a := (int(c[i+3]) | int(c[i+2])<<8) + i + 4
